@@ -22,9 +22,11 @@ func init() {
 			"(R6) every clearance request is made with the caller's delay when it was tested positive and otherwise with the default constant of that same priority (table: medium -> defaultMediumPriorityMaxDelay, low -> defaultLowPriorityMaxDelay); " +
 			"(R7) the recovery code of a microtask never invokes methods of the recovered panic value (= C06-R6): a second panic inside the handler skips concludeMicroTask and leaks both counts; " +
 			"(R8) sibling agreement (A14): the paired functions consist of the same operations - calls with their constant arguments, comparisons (canonical under negation and operand order), field reads/writes, channel operations, returns, each with the number of conditions it depends on - once the instance-specific names are mapped onto each other; logging is ignored, named differences are listed in the table: Run/Start/Signal of medium ~ low priority and the two clearance functions (the priorities differ only in their clearance channel and default delay); " +
+			"(R9) stop completion looks at the module's own counters (= C01-R7/C05-R3: checkIfStopComplete tests m.microTaskCnt, not the global count); " +
 			"NOT decided: the concurrency bound under real races between the scheduler and finishing tasks, exactly-once execution over all schedules.",
 		Rules: []ruleFn{c15R1, c15R2, c15R3, c15R4,
-			c15R5, c15R6, borrowRule(c06R6, "C06-R6", "C15-R7", 3, nil), func(c *Ctx, r *Report) { siblingRule(c, r, "C15-R8", sibMicro) }},
+			c15R5, c15R6, borrowRule(c06R6, "C06-R6", "C15-R7", 3, nil), func(c *Ctx, r *Report) { siblingRule(c, r, "C15-R8", sibMicro) },
+			func(c *Ctx, r *Report) { stopCompletionRule(c, r, "C15-R9") }},
 	})
 }
 
